@@ -96,6 +96,18 @@ func charRefEnd(out []byte, i int) int {
 
 type hErr struct{ msg string }
 
+// tokQuiet makes tokenizeHTML return false on a lexical error without reporting it (harnesses whose
+// subject is not the lexical clause of C03 count such paths with Reach("untokenizable")).
+var tokQuiet = false
+
+func tokFail(msg string) {
+	if tokQuiet {
+		vp.Reach("untokenizable")
+		return
+	}
+	vp.Fail(msg)
+}
+
 // tokenizeHTML splits safe-mode output into tokens, asserting the lexical clauses of C03 on the way:
 // text has no raw '<'; attribute values have no raw '"'; every '&' starts a well-formed reference;
 // the only comment is the fixed placeholder; tags are syntactically complete.
@@ -113,7 +125,7 @@ func tokenizeHTML(out []byte) ([]hTok, bool) {
 				if out[i] == '&' {
 					e := charRefEnd(out, i)
 					if e < 0 {
-						vp.Fail("'&' in text does not start a well-formed character reference")
+						tokFail("'&' in text does not start a well-formed character reference")
 						return nil, false
 					}
 					i = e
@@ -132,7 +144,7 @@ func tokenizeHTML(out []byte) ([]hTok, bool) {
 				toks = append(toks, hTok{Kind: tComment, Start: st, End: i})
 				continue
 			}
-			vp.Fail("comment or declaration other than the raw-HTML placeholder")
+			tokFail("comment or declaration other than the raw-HTML placeholder")
 			return nil, false
 		}
 		i++
@@ -146,14 +158,14 @@ func tokenizeHTML(out []byte) ([]hTok, bool) {
 			i++
 		}
 		if i == ns {
-			vp.Fail("raw '<' that does not start a tag")
+			tokFail("raw '<' that does not start a tag")
 			return nil, false
 		}
 		t := hTok{Kind: tOpen, Name: string(out[ns:i]), Start: st}
 		if closing {
 			t.Kind = tClose
 			if i >= n || out[i] != '>' {
-				vp.Fail("malformed end tag")
+				tokFail("malformed end tag")
 				return nil, false
 			}
 			i++
@@ -163,7 +175,7 @@ func tokenizeHTML(out []byte) ([]hTok, bool) {
 		}
 		for {
 			if i >= n {
-				vp.Fail("unterminated tag")
+				tokFail("unterminated tag")
 				return nil, false
 			}
 			if out[i] == '>' {
@@ -171,7 +183,7 @@ func tokenizeHTML(out []byte) ([]hTok, bool) {
 				break
 			}
 			if out[i] != ' ' {
-				vp.Fail("unexpected byte inside a tag")
+				tokFail("unexpected byte inside a tag")
 				return nil, false
 			}
 			i++
@@ -185,13 +197,13 @@ func tokenizeHTML(out []byte) ([]hTok, bool) {
 				i++
 			}
 			if i == as {
-				vp.Fail("empty attribute name")
+				tokFail("empty attribute name")
 				return nil, false
 			}
 			a := hAttr{Name: out[as:i]}
 			if i < n && out[i] == '=' {
 				if i+1 >= n || out[i+1] != '"' {
-					vp.Fail("attribute value is not double-quoted")
+					tokFail("attribute value is not double-quoted")
 					return nil, false
 				}
 				i += 2
@@ -200,7 +212,7 @@ func tokenizeHTML(out []byte) ([]hTok, bool) {
 					if out[i] == '&' {
 						e := charRefEnd(out, i)
 						if e < 0 {
-							vp.Fail("'&' in an attribute value does not start a well-formed character reference")
+							tokFail("'&' in an attribute value does not start a well-formed character reference")
 							return nil, false
 						}
 						i = e
@@ -209,7 +221,7 @@ func tokenizeHTML(out []byte) ([]hTok, bool) {
 					i++
 				}
 				if i >= n {
-					vp.Fail("unterminated attribute value")
+					tokFail("unterminated attribute value")
 					return nil, false
 				}
 				a.Val, a.HasVal = out[vs:i], true
